@@ -1,0 +1,16 @@
+//go:build verif
+// +build verif
+
+package io
+
+// Add-only verification hook (build tag "verif"): exposes the two unexported
+// pure helpers of hdf5_util.go so that they can be enumerated directly against
+// their Coq model (property C08).  No behaviour of the package changes.
+
+// VerifSliceSize is sliceSize.
+func VerifSliceSize(slice []int, size int) int { return sliceSize(slice, size) }
+
+// VerifMakeHyperslab is makeHyperslab.
+func VerifMakeHyperslab(slice [][]int, dims []int) (offset, stride, count, block []uint) {
+	return makeHyperslab(slice, dims)
+}
